@@ -39,6 +39,18 @@ theorem fields_roundtrip (fs : List Field) (rest : Bytes) (h : ∀ f ∈ fs, f.w
 theorem canIRead_exact (ts : List ReadType) (buf : Bytes) :
     canIRead ⟨buf, true⟩ ts = true ↔ holdsFields ts buf := canIRead_iff ts buf
 
+/-- … and the executable form of "the fields are all there" that the driver evaluates against the
+    implementation's answer (Spec clause C03.can-i-read) is that same predicate, and is what the model computes -/
+theorem holdsFieldsB_exact (ts : List ReadType) (buf : Bytes) :
+    SpecC03.holdsFieldsB ts buf = true ↔ holdsFields ts buf := holdsFieldsB_iff ts buf
+
+theorem canIRead_is_spec (ts : List ReadType) (buf : Bytes) :
+    canIRead ⟨buf, true⟩ ts = SpecC03.holdsFieldsB ts buf := canIRead_eq_holdsFieldsB ts buf
+
+/- a length prefix with the top bit set is a (huge) unsigned length: the fields are not there -/
+example : SpecC03.holdsFieldsB [.bytes, .int32] [0xff, 0xff, 0xff, 0xff, 97, 98, 99] = false := by decide
+example : SpecC03.holdsFieldsB [.bytes, .int32] [0, 0, 0, 3, 97, 98, 99, 0, 0, 0, 1, 9] = true := by decide
+
 theorem canIRead_of_encoded (fs : List Field) (rest : Bytes) (h : ∀ f ∈ fs, f.wf) :
     canIRead ⟨encodeFields fs ++ rest, true⟩ (fs.map Field.kind) = true :=
   (canIRead_iff _ _).mpr (holdsFields_encode fs rest h)
